@@ -21,7 +21,7 @@ import suites
 from props import PROPS
 
 VERIF = run.VERIF
-EVID = os.path.join(VERIF, "evidence")
+EVID = os.environ.get("VERIF_EVIDENCE", os.path.join(VERIF, "evidence"))   # bin/selftest redirects it: evidence/ only ever describes runs against /repo
 REPLAYS = os.path.join(EVID, "replays")
 
 FORBIDDEN = re.compile(r"\b(Admitted|admit|Axiom|Axioms|Parameter|Parameters|Conjecture|Conjectures|Abort All)\b|Unset Guard|bypass_check|type-in-type|impredicative-set|Admit Obligations|Unset Positivity|Unset Universe")
